@@ -203,7 +203,7 @@ def run(rep, tier, seed):
     rejects = core.validate("pipeline", "Trace_Pipeline", traces + probes, workers=8)
     rej = {x[0] for x in rejects}
     if any(p["id"] not in rej for p in probes):
-        raise core.MachineryError("P accepted corrupted traces")
+        core.probe_fail(rejects, "P accepted corrupted traces")
     rep.extra["probes_rejected"] = len(probes)
     rep.traces = len(traces)
     for tid, clause, _ in rejects:
@@ -378,7 +378,7 @@ def run_metric_pipeline(rep, tier, seed, tool):
     rejects = core.validate("pipeline", "Trace_PipelineMetric", traces + [p, p2], workers=8)
     rej = {x[0] for x in rejects}
     if "probe.pm" not in rej or "probe.pmts" not in rej:
-        raise core.MachineryError("pipeline P accepted corrupted traces")
+        core.probe_fail(rejects, "pipeline P accepted corrupted traces")
     rep.traces += len(traces)
     rep.extra["cli_pipeline_cases"] = len(traces)
     for n, c in enumerate(cases):
